@@ -16,10 +16,10 @@ use nom::{
     branch::alt,
     bytes::complete::{tag, tag_no_case},
     character::complete::{char, i32, i64, multispace0, u64},
-    combinator::{cond, map, map_res, opt, value},
+    combinator::{all_consuming, cond, map, map_res, opt, value},
     error::{Error as NomError, ErrorKind},
     multi::{many0, separated_list1},
-    number::complete::double,
+    number::complete::{double, recognize_float},
     sequence::{delimited, pair, preceded, separated_pair, terminated, tuple},
     IResult,
 };
@@ -337,13 +337,27 @@ fn binary_arith_op(input: &[u8]) -> IResult<&[u8], BinaryArithmeticOperator> {
     ))(input)
 }
 
+// Recognize the whole number literal first, so that a number with a fraction or
+// an exponent part is not cut off after its leading integer digits.
+fn number(input: &[u8]) -> IResult<&[u8], Number> {
+    let (rest, literal) = recognize_float(input)?;
+    if !literal.iter().any(|c| matches!(c, b'.' | b'e' | b'E')) {
+        if let Ok((_, v)) = all_consuming(u64::<&[u8], NomError<&[u8]>>)(literal) {
+            return Ok((rest, Number::UInt64(v)));
+        }
+        if let Ok((_, v)) = all_consuming(i64::<&[u8], NomError<&[u8]>>)(literal) {
+            return Ok((rest, Number::Int64(v)));
+        }
+    }
+    map(double, Number::Float64)(input)
+}
+
 fn path_value(input: &[u8]) -> IResult<&[u8], PathValue<'_>> {
     alt((
         value(PathValue::Null, tag("null")),
         value(PathValue::Boolean(true), tag("true")),
         value(PathValue::Boolean(false), tag("false")),
-        map(u64, |v| PathValue::Number(Number::UInt64(v))),
-        map(i64, |v| PathValue::Number(Number::Int64(v))),
+        map(number, PathValue::Number),
         map(double, |v| PathValue::Number(Number::Float64(v))),
         map(string, PathValue::String),
     ))(input)
